@@ -530,7 +530,7 @@ def real_alpha_vec(W):
 # --------------------------------------------------------------------------------------------
 # hand-placed rectangles on wide / narrow cones (real discarding + ε-covering, exact geometry)
 # --------------------------------------------------------------------------------------------
-EXTRA_CONES = {"obtuse2n3": [[2, 1], [1, 2], [1, 1]]}
+EXTRA_CONES = {"obtuse2n3": [[2, 1], [1, 2], [1, 1]], "orthantplus2": [[1, 0], [0, 1], [2, -1]]}
 _theta_orders: dict = {}
 
 
@@ -538,6 +538,14 @@ def cone_order(spec):
     """(W as float array, real order object) for an EXACT_CONES / EXTRA_CONES name or {"theta": degrees}"""
     from harness.cones import real_order
 
+    if isinstance(spec, dict) and "icecream" in spec:
+        key = ("ice",) + tuple(spec["icecream"])
+        if key not in _theta_orders:
+            from vopy.order import ConeOrder3DIceCream
+
+            _theta_orders[key] = ConeOrder3DIceCream(spec["icecream"][0], spec["icecream"][1])
+        o = _theta_orders[key]
+        return np.asarray(o.ordering_cone.W, dtype=float), o
     if isinstance(spec, dict) and "theta" not in spec:
         W = _offdiag_W(spec)
         return W, real_order(W.tolist())
@@ -740,11 +748,88 @@ def run_placed(ctx, case, prop):
     ctx.case_done(case, bool(nt), canon=["placed", name, case["cone"], case["lower"], case["upper"], case["S"], case["P"]])
 
 
+LATE_FACET_CONES = ["threefacet2", "orthantplus2", "fourfacet3", "pyramid3", {"icecream": [45, 4]},
+                    {"icecream": [60, 6]}, {"icecream": [45, 5]}, {"icecream": [50, 8]}]
+
+
+def _ell_L_m(rng, m):
+    if m == 2:
+        return _ell_L(rng)
+    u = rng.choice([0.0625, 0.125])
+    L = [[0.0] * m for _ in range(m)]
+    for a_ in range(m):
+        L[a_][a_] = u * rng.choice([2, 3, 4, 6])
+        for b_ in range(a_):
+            L[a_][b_] = u * rng.choice([0, 0, 1, -1, 2, -2, 3, -3])
+    return L
+
+
+def gen_ell_latefacet_case(rng, alg, cone, certified=False):
+    """two designs with ellipsoidal regions under a cone with MORE facets than objectives (N > m): the witness
+    wins with a margin ≥ 30 % on the first m facets; `certified=False`: it loses by ≥ 20 % on a facet of index
+    ≥ m (no certificate — decided by a late facet), `certified=True`: it wins on every facet (control)."""
+    W, order = cone_order(cone)
+    N, m = W.shape
+    conf = {"PaVeBa": 4, "PaVeBaGP-DE": 32, "PaVeBaPartialGP-ell": 16}[alg]
+    noise_var = 0.0625
+    X = [[0.0, 0.0], [0.125, 0.625]]
+    kw = {"conf_contraction": conf, "noise_var": noise_var, "epsilon": 0.125, "delta": 0.05}
+    if alg == "PaVeBa":
+        a_ = stubs.build(alg, in_data=X, out_data=np.zeros((2, m)), order=order, **kw)
+        a_.round = 1
+        alpha = float(a_.compute_radius())
+    else:
+        cls = stubs.ScriptedModelList if alg.startswith("PaVeBaPartial") else stubs.ScriptedModel
+        a_ = stubs.build(alg, in_data=X, out_data=np.zeros((2, m)), order=order,
+                         model=cls(np.array(X), np.zeros((2, m)), np.ones((2, m))), **kw)
+        a_.round = 1
+        alpha = float(a_.compute_alpha())
+    for _ in range(200):
+        L0, L1 = _ell_L_m(rng, m), _ell_L_m(rng, m)
+        t = _support(W, L0) + _support(W, L1)  # per-facet support sums (α = 1)
+        gaps = np.array([t[k] * rng.choice([1.3, 2.0, 4.0, 8.0, 16.0]) for k in range(m)])
+        try:
+            shift = np.linalg.solve(W[:m], gaps)
+        except np.linalg.LinAlgError:
+            return None
+        marg = W @ shift - t
+        late = marg[m:]
+        if certified:
+            if not np.all(marg >= 0.3 * t):
+                continue
+        elif not (np.any(late <= -0.2 * t[m:]) and np.all(marg[:m] >= 0.29 * t[:m])):
+            continue
+        base = np.array([core.dyadic(rng, -8, 8, 3) for _ in range(m)])
+        c1 = np.round((base + alpha * shift) * 1024) / 1024
+        return {"kind": "run", "shape": "ell-late-facet-" + ("yes" if certified else "no"), "alg": alg, "cone": cone,
+                "eps": 0.125, "delta": 0.05, "n": 2, "in_data": X, "out_data": [list(map(float, base)), list(map(float, c1))],
+                "seed": rng.randrange(10 ** 6), "rounds": 1, "noise_var": noise_var, "conf": conf, "L": [L0, L1],
+                "mean_err": [[0.0] * m] * 2, "stub_model": alg == "PaVeBa"}
+    return None
+
+
+def gen_latefacet_cases(seed):
+    """deterministic structured list (own generator, see gen_placed_cases)"""
+    import random
+
+    rng = random.Random(f"latefacet:{seed}")
+    out = []
+    algs = ["PaVeBa", "PaVeBaGP-DE", "PaVeBaPartialGP-ell"]
+    for k, cone in enumerate(LATE_FACET_CONES):
+        out.append(gen_ell_latefacet_case(rng, algs[k % 3], cone, certified=False))
+        out.append(gen_ell_latefacet_case(rng, algs[(k + 1) % 3], cone, certified=False))
+    for k, cone in enumerate(LATE_FACET_CONES[::3]):
+        out.append(gen_ell_latefacet_case(rng, algs[k % 3], cone, certified=True))
+    return [c for c in out if c is not None]
+
+
 def gen(ctx):
     rng = ctx.rng
     # structured first: every algorithm class × every table shape once
     if ctx.worker == 0:
         for c in gen_placed_cases(ctx.seed):
+            yield c
+        for c in gen_latefacet_cases(ctx.seed):
             yield c
         for alg in TABLE_ALGS:
             for _ in range(2):
@@ -1072,20 +1157,27 @@ class HeteroProblem:
         return f + z * (self.scale[idx] * np.sqrt(self.noise_var))[:, None]
 
 
+def case_covs(case):
+    """posterior covariances of a scripted run: explicit `covs`, or L·Lᵀ from the dyadic factors `L`"""
+    if "covs" in case:
+        return np.array(case["covs"], dtype=float)
+    return np.array([np.array(L, dtype=float) @ np.array(L, dtype=float).T for L in case["L"]])
+
+
 def build_run_algorithm(case):
     name = case["alg"]
-    W, _ = EXACT_CONES[case["cone"]]
+    W, order = cone_order(case["cone"])
     X, Y = np.array(case["in_data"], dtype=float), np.array(case["out_data"], dtype=float)
     m = Y.shape[1]
     common = dict(epsilon=case["eps"], delta=case["delta"], noise_var=case["noise_var"], conf_contraction=case["conf"])
     if name == "PaVeBa" and case.get("stub_model"):
         # arbitrary (correlated) posterior handed to the real PaVeBa object: the empirical model is replaced
-        a = stubs.build(name, in_data=X, out_data=Y, W=W, **common)
-        covs = np.array([np.array(L, dtype=float) @ np.array(L, dtype=float).T for L in case["L"]])
+        a = stubs.build(name, in_data=X, out_data=Y, order=order, **common)
+        covs = case_covs(case)
         a.model = stubs.ScriptedModel(X, Y + np.array(case["mean_err"], dtype=float), covs)
         return a
     if name == "PaVeBa":
-        return stubs.build(name, in_data=X, out_data=Y, W=W, **common)
+        return stubs.build(name, in_data=X, out_data=Y, order=order, **common)
     if name == "Auer":
         a = stubs.build(name, in_data=X, out_data=Y, use_empirical_beta=True, **common)
         a.problem = HeteroProblem(a.problem, case["noise_scale"])
@@ -1096,11 +1188,11 @@ def build_run_algorithm(case):
             pr = stubs.SyntheticContinuousProblem(
                 lambda x, c=c: x[:, :1] * c[0][None, :] + (1.0 - x[:, 1:2]) * c[1][None, :], 2, m,
                 case["noise_var"], depth_max=case["max_depth"])
-            return stubs.build(name, problem=pr, W=W, model="fixed", **common)
-        kw = {} if name == "EpsilonPAL" else {"W": W}
+            return stubs.build(name, problem=pr, order=order, model="fixed", **common)
+        kw = {} if name == "EpsilonPAL" else {"order": order}
         return stubs.build(name, in_data=X, out_data=Y, model="fixed", **kw, **common)
-    if "L" in case:
-        covs = np.array([np.array(L, dtype=float) @ np.array(L, dtype=float).T for L in case["L"]])
+    if "L" in case or "covs" in case:
+        covs = case_covs(case)
         V = None
     else:  # older corpus cases: variances + correlation (no exact factor available)
         V = np.array(case["vars"], dtype=float)
@@ -1121,10 +1213,10 @@ def build_run_algorithm(case):
         pr = stubs.SyntheticContinuousProblem(lambda x: np.array([post(r)[0] for r in x]), 1, m,
                                               case["noise_var"], depth_max=case["max_depth"])
         mdl = stubs.ScriptedModel(np.zeros((0, 1)), np.zeros((0, m)), np.zeros((0, m, m)), fallback=post)
-        return stubs.build(name, problem=pr, W=W, model=mdl, **common)
+        return stubs.build(name, problem=pr, order=order, model=mdl, **common)
     cls = stubs.ScriptedModelList if name.startswith("PaVeBaPartial") else stubs.ScriptedModel
     mdl = cls(X, means, covs)
-    kw = {} if name == "EpsilonPAL" else {"W": W}
+    kw = {} if name == "EpsilonPAL" else {"order": order}
     return stubs.build(name, in_data=X, out_data=Y, model=mdl, **kw, **common)
 
 
